@@ -302,3 +302,24 @@ check("C02", "fault_enumeration",
            "future is observed: no run may end with both honest helpers holding an accepted histogram that differs from the "
            "untampered computation.",
       note="Quick tier: 2 faults per channel on one 12-report query; thorough: full alphabet, padding on, 2 shards.")
+
+check("C06", "exploration",
+      "three PRSS endpoints from make_participants (3 seeds): for 47 step identifiers (incl. neighbours differing in one "
+      "character) x indices {0,1,2,255,2^16,2^32-1} x every admissible offset 0..=2048 (two indices per step) / 0..40: each helper's "
+      "right value equals its right neighbour's left value, and all values over the whole alphabet are pairwise distinct; offset 2049 "
+      "is refused; sequential generators agree for 1000 draws; sequential twice / indexed+sequential on one step is refused; "
+      "cross-shard randomness over real gateways for 2,3,5 shards (identical on all shards of a helper, matching the neighbours, "
+      "different from per-shard randomness); the debug duplicate-(step,index) monitor stays silent over attribution queries with and "
+      "without padding, both modes, 1-2 shards (and, through the shared panic hook, over every other check's runs). "
+      "distinct_nontrivial = distinct 128-bit values observed.",
+      [{"name": "prss", "config": "A", "test": "verif::c06::run", "timeout": {"quick": 900, "thorough": 3600},
+        "require": {"any": {"prss_values_compared": 100000, "cross_shard_points": 40, "protocol_runs_monitored": 5}}}],
+      assumptions=["pseudo-randomness of AES/HKDF is assumed; 'unrelated' is checked as pairwise distinctness over the alphabet",
+                   "index reuse inside protocols is observed through the crate's own debug-assertion monitor"],
+      exhaustive=True, engine="E5 domain",
+      technique="exhaustive enumeration of a (step, index, offset) alphabet on real PRSS endpoints with agreement and distinctness "
+                "oracles; runtime monitor turned oracle over protocol executions",
+      text="All values of the alphabet are generated on the three real endpoints and compared pairwise; every admissible offset of an "
+           "index is covered so that any aliasing inside the index space shows as a collision; API misuse that would replay a stream "
+           "must be refused; cross-shard values must coincide on all shards.",
+      note="47 steps x 6 indices x up to 2049 offsets x 3 seeds.")
